@@ -27,7 +27,13 @@ for m in json.load(open(os.path.join(verif, "mutants", "mutants.json")))["mutant
 for meta in sorted(glob.glob(os.path.join(verif, "seeded", "*", "meta.json"))):
     md = json.load(open(meta))
     if prop in md.get("checked_by", [md.get("property")]) and md.get("status") == "kept":
-        variants.append(("seed:" + md["id"], {"patch": os.path.join(os.path.dirname(meta), md.get("patch", "patch.diff")), "expect": md.get("caught_by_rule", "")}))
+        variants.append(("seed:" + md["id"], {"patch": os.path.join(os.path.dirname(meta), md.get("patch", "patch.diff")), "expect": md.get("caught_by_rule", "").split(",")[0].strip()}))
+    # seeded changes that a repo fix made behaviour-preserving: no check may flag them
+    if md.get("status") == "obsolete" and "behaviour-preserving" in md.get("why", "") + md.get("needs_to_manifest", "") and os.path.exists(os.path.join(os.path.dirname(meta), "patch.diff")):
+        variants.append(("benign-seed:" + md["id"], {"patch": os.path.join(os.path.dirname(meta), "patch.diff"), "benign": True}))
+# behaviour-preserving edits: no check may flag them
+for b in json.load(open(os.path.join(verif, "mutants", "benign.json")))["edits"]:
+    variants.append(("benign:" + b["name"], dict(b, benign=True)))
 
 results = []
 if variants:
@@ -39,7 +45,7 @@ if variants:
         os.makedirs(sv)
         shutil.copy(os.path.join(verif, "known_findings.json"), sv)
         for name, m in variants:
-            res = {"variant": name, "expected_rule": m.get("expect", ""), "applied": False, "flagged": False, "rules": []}
+            res = {"variant": name, "expected_rule": m.get("expect", ""), "applied": False, "flagged": False, "rules": [], "benign": bool(m.get("benign"))}
             touched = []
             try:
                 if "patch" in m:
@@ -48,6 +54,19 @@ if variants:
                         p = subprocess.run(["patch", "-p1", "-s", "-d", work, "-i", m["patch"]], capture_output=True, text=True)
                     res["applied"] = p.returncode == 0
                     touched = None
+                elif "subs" in m:
+                    f = os.path.join(work, m["file"])
+                    s0 = s = open(f).read()
+                    okall = True
+                    for old, new in m["subs"]:
+                        if len(re.findall(old, s, flags=re.S | re.M)) != 1:
+                            okall = False
+                            break
+                        s = re.sub(old, lambda _: new, s, count=1, flags=re.S | re.M)
+                    if okall:
+                        open(f, "w").write(s)
+                        res["applied"] = True
+                    touched = [(f, s0)]
                 else:
                     f = os.path.join(work, m["file"])
                     s = open(f).read()
@@ -76,13 +95,16 @@ if variants:
 
 ev = json.load(open(evp))
 ev["coverage"]["sensitivity"] = {
-    "note": "frozen variants and kept seeded changes applied one at a time to a scratch copy of /repo; evidence only",
+    "note": "frozen variants, kept seeded changes (must be flagged) and behaviour-preserving edits (must not be flagged) applied one at a time to a scratch copy of /repo; evidence only",
     "variants": len(results),
     "applied": sum(1 for r in results if r["applied"]),
-    "flagged": sum(1 for r in results if r["flagged"]),
-    "flagged_by_expected_rule": sum(1 for r in results if r.get("expected_hit") and r["flagged"]),
+    "breaking_variants": sum(1 for r in results if not r["benign"]),
+    "flagged": sum(1 for r in results if r["flagged"] and not r["benign"]),
+    "flagged_by_expected_rule": sum(1 for r in results if r.get("expected_hit") and r["flagged"] and not r["benign"]),
+    "benign_variants": sum(1 for r in results if r["benign"]),
+    "benign_flagged": sum(1 for r in results if r["flagged"] and r["benign"]),
     "results": results,
 }
 json.dump(ev, open(evp, "w"), indent=1)
 n = ev["coverage"]["sensitivity"]
-print("sensitivity property=%s variants=%d applied=%d flagged=%d" % (prop, n["variants"], n["applied"], n["flagged"]))
+print("sensitivity property=%s breaking=%d flagged=%d benign=%d benign_flagged=%d" % (prop, n["breaking_variants"], n["flagged"], n["benign_variants"], n["benign_flagged"]))
